@@ -270,6 +270,7 @@ class Machine:
             "intra": (1, self.op_intra),
             "hash": (1, self.op_hash),
             "drop": (1, self.op_drop),
+            "fault": (1, lambda k: "ok"),       # arms fault injection in the harness (kind fu64); no effect on contents
             "b_new": (2, self.op_b_new),
             "b_push": (1, self.op_b_push),
             "b_push_node": (2, self.op_b_push_node),
@@ -984,6 +985,11 @@ def check_trace(history, trace_lines):
         elif _is_abandoned(actual_r):
             mismatches.append(Mismatch(op.n, op.op_text, op.r_line, actual_r))
             return mismatches
+        elif actual_r == "R %d fault" % op.n and index > 0 and predicted[index - 1].op_text.startswith("fault "):
+            # the injected fault fired inside this operation (hash / par_hash / intra): the call was abandoned,
+            # which is an admissible outcome; contents are as predicted (hashing changes nothing, a
+            # self-deduplication flushes before it hashes)
+            pass
         elif not match_line(op.r_line, actual_r):
             mismatches.append(Mismatch(op.n, op.op_text, op.r_line, actual_r))
         if op.gave_up:
